@@ -74,12 +74,56 @@ def _bump(d, k, n=1):
 
 
 def _finish_part(chk, name, stats, res, nontrivial, rule):
+    """The host check (C01 / C03 / C09) ASSIGNS the top-level counters of its evidence after this part has run, so the part's
+    counts are added when the host finishes: chk.finish is wrapped once."""
     n = sum(v for k, v in res.items() if k.startswith("rv:"))
-    chk.cov["traces_validated_against_impl"] += n
-    chk.cov["evaluations"] += n
-    chk.cov["distinct_nontrivial"] += nontrivial
+    stats["validated_lines"], stats["rule"] = n, rule
     chk.cov[name] = stats
-    chk.cov["rule"] = (chk.cov.get("rule") or "") + " | " + rule
+    pend = _hook(chk)
+    pend["n"] += n
+    pend["nontrivial"] += nontrivial
+    pend["rules"].append(rule)
+
+
+def _hook(chk):
+    """Wraps chk.finish once: join the parts started with background(), add their counts, then write the evidence."""
+    pend = getattr(chk, "_prod_pending", None)
+    if pend is None:
+        pend = chk._prod_pending = {"n": 0, "nontrivial": 0, "rules": [], "joins": []}
+        orig = chk.finish
+
+        def finish(level="model_checking"):
+            for j in pend["joins"]:
+                j()
+            chk.cov["traces_validated_against_impl"] += pend["n"]
+            chk.cov["evaluations"] += pend["n"]
+            chk.cov["distinct_nontrivial"] += pend["nontrivial"]
+            chk.cov["rule"] = " | ".join([x for x in [chk.cov.get("rule")] + pend["rules"] if x])
+            return orig(level)
+        chk.finish = finish
+    return pend
+
+
+def background(part, chk):
+    """Start run_keygen / run_sign / run_otvole on a thread so that it overlaps with the host check's own work; chk.finish() waits
+    for it (and re-raises its MachineryError).  Usage, first line of run(chk):  prod_common.background(prod_common.run_sign, chk)"""
+    import threading
+    box = {}
+
+    def target():
+        try:
+            part(chk)
+        except BaseException as ex:      # re-raised on the main thread by finish()
+            box["err"] = ex
+    t = threading.Thread(target=target, name="prod-part")
+    t.start()
+
+    def join():
+        t.join()
+        if "err" in box:
+            raise box["err"]
+    _hook(chk)["joins"].append(join)
+    return join
 
 
 # ------------------------------------------------------------------------------------------------------------------- keygen (C03)
@@ -172,7 +216,8 @@ def run_sign(chk):
             ("cggmp", test, True, "sign:cggmp21", 2 if q else 6)]
     tasks = []
     for cfg in (SA_QUICK if q else SA_THOROUGH):
-        tasks.append(("mc:" + cfg, (lambda cfg=cfg: vlib.tlc(SPEC, "SignAlgebraMC", cfg, workers=2 if q else 3, timeout=3400, deadlock=True))))
+        tasks.append(("mc:" + cfg, (lambda cfg=cfg: vlib.tlc(SPEC, "SignAlgebraMC", cfg, workers=2 if q else 3, timeout=3400, deadlock=True,
+                                                             rundir=vlib.scratch(chk.prop, "mc-" + cfg.replace(".cfg", ""))))))
     for tag, binary, tm, only, parts in plan:
         for i in range(parts):
             args = ["-mode", "sign", "-only", only, "-parts", str(parts), "-part", str(i), "-cache", CACHE]
